@@ -33,9 +33,11 @@
 
 #include <fcntl.h>
 #include <limits.h>
+#include <signal.h>
 #include <stdio.h>
 #include <stdlib.h>
 #include <string.h>
+#include <time.h>
 #include <unistd.h>
 
 
@@ -61,6 +63,12 @@ int snoopy_output_fileoutput (char const * const logMessage, char const * const 
     char  *line;
     size_t lineLen;
     ssize_t charCount;
+    sigset_t         writeSigSet;
+    sigset_t         pendingSet;
+    sigset_t         origMask;
+    int              sigxfszWasPending;
+    int              sigpipeWasPending;
+    struct timespec  noWait = { 0, 0 };
 
     // Check if output file is properly configured
     if (0 == strcmp(arg, "")) {
@@ -93,7 +101,34 @@ int snoopy_output_fileoutput (char const * const logMessage, char const * const 
      * write() calls, and other processes logging to the same file can then get their
      * messages in between. A single write() to a file opened with O_APPEND is atomic.
      */
+    /*
+     * The write may raise a signal in the process that is calling exec(): SIGXFSZ if the log
+     * file has reached that process' file size limit (ulimit -f), SIGPIPE if the destination
+     * is a FIFO whose reader is gone. Both kill the process by default, and logging must never
+     * do that: block them for this thread while writing, and if our write generated one,
+     * consume it before the original signal mask is restored (the write fails with EFBIG or
+     * EPIPE instead).
+     */
+    sigemptyset(&writeSigSet);
+    sigaddset(&writeSigSet, SIGXFSZ);
+    sigaddset(&writeSigSet, SIGPIPE);
+    sigpending(&pendingSet);
+    sigxfszWasPending = sigismember(&pendingSet, SIGXFSZ);
+    sigpipeWasPending = sigismember(&pendingSet, SIGPIPE);
+    pthread_sigmask(SIG_BLOCK, &writeSigSet, &origMask);
+
     charCount = write(fd, line, lineLen);
+
+    if (1 == sigxfszWasPending) {
+        sigdelset(&writeSigSet, SIGXFSZ);
+    }
+    if (1 == sigpipeWasPending) {
+        sigdelset(&writeSigSet, SIGPIPE);
+    }
+    while (sigtimedwait(&writeSigSet, NULL, &noWait) > 0) {
+        ;
+    }
+    pthread_sigmask(SIG_SETMASK, &origMask, NULL);
     close(fd);
     free(line);
     if (charCount < 0) {
